@@ -176,7 +176,7 @@ func (t *Torrent) run(ctx context.Context) {
 	}
 	ticker := time.NewTicker(5*time.Second + jiffy())
 	slowTicker := time.NewTicker(20*time.Second + jiffy())
-	verifTickers(ticker, slowTicker)
+	verifTickers(t, ticker, slowTicker)
 	ctx, cancelCtx := context.WithCancel(ctx)
 	defer func() {
 		cancelCtx()
